@@ -53,6 +53,7 @@ type scriptedClient struct {
 	calls []whCall
 	next  func() int
 	byURL func(u string) (int, bool) // optional: outcome chosen by target URL
+	hang  func(u string) <-chan struct{} // optional: the receiver at u does not answer before the channel is closed
 }
 
 func (c *scriptedClient) Call(headers map[string]string, method string, u string, body any) (*http.Response, error) {
@@ -70,6 +71,11 @@ func (c *scriptedClient) Call(headers map[string]string, method string, u string
 		}
 	}
 	c.mu.Unlock()
+	if c.hang != nil {
+		if ch := c.hang(u); ch != nil {
+			<-ch
+		}
+	}
 	mk := func(code int) *http.Response {
 		return &http.Response{StatusCode: code, Body: io.NopCloser(strings.NewReader("resp"))}
 	}
